@@ -6,7 +6,7 @@ import os, json, subprocess, time
 from vlib import VERIF, REPO, WORK
 import kanilib
 
-RTARGET = os.path.join(WORK, "replay-target")
+RTARGET = os.environ.get("SKA_REPLAY_TARGET", os.path.join(WORK, "replay-target"))
 
 
 def build_mirror():
